@@ -58,6 +58,14 @@ Theorem C34_read_reports : forall sr total op f,
   fst (run_rop sr total op) = Err E_INJECTED.
 Proof. exact read_reports. Qed.
 
+(** A source that ENDS early (every call after [total] bytes is a zero-length
+    read: connection closed, truncated file) before the operation has all the
+    bytes it asks for makes it return an error, never success. *)
+Theorem C34_read_reports_early_end : forall sr total op,
+  i_fail sr = None -> total < sumN (demands op) ->
+  fst (run_rop sr total op) = Err E_UNEXPECTED_EOF.
+Proof. exact read_reports_early_end. Qed.
+
 Theorem C34_read_no_partial_success : forall sr total op,
   sumN (demands op) <= total -> fst (run_rop sr total op) = Ok tt -> snd (run_rop sr total op) = sumN (demands op).
 Proof. exact read_ok_all. Qed.
@@ -144,6 +152,9 @@ Check C34_pdata_async_reports : forall ctx max chunks s results wire_bytes u,
   (Forall (fun r => is_okb r = true) results ->
      results = all_ok (S (length chunks))
      /\ wire_bytes = enc_all ctx (fragments (max - 6) (concat chunks))).
+Check C34_read_reports_early_end : forall sr total op,
+  i_fail sr = None -> total < sumN (demands op) ->
+  fst (run_rop sr total op) = Err E_UNEXPECTED_EOF.
 Print Assumptions C34_write_reports.
 Print Assumptions C34_no_partial_success.
 Print Assumptions C34_never_panics.
@@ -151,6 +162,7 @@ Print Assumptions C34_received_prefix.
 Print Assumptions C34_deflate_refuted.
 Print Assumptions C34_outside_known.
 Print Assumptions C34_read_reports.
+Print Assumptions C34_read_reports_early_end.
 Print Assumptions C34_read_no_partial_success.
 Print Assumptions C34_read_never_panics.
 Print Assumptions C34_pdata_reports.
